@@ -5,6 +5,7 @@ package removex
 import (
 	"encoding/json"
 	"fmt"
+	"hash/crc32"
 	"os"
 	"os/exec"
 	"path/filepath"
@@ -75,7 +76,11 @@ func sortedKey(xs []string) string {
 
 func one(v Vec, kind string, cli bool) string {
 	dir := hx.Scratch("rm")
-	defer os.RemoveAll(dir)
+	if os.Getenv("VERIF_KEEP") == "" {
+		defer os.RemoveAll(dir)
+	} else {
+		fmt.Fprintln(os.Stderr, "keeping", dir)
+	}
 	repo := hx.InitRepo(dir)
 	for k, m := range v.Remotes {
 		hx.Must(repo.AddRemote(m, filepath.Join(dir, "nowhere-"+m)))
@@ -146,16 +151,35 @@ func one(v Vec, kind string, cli bool) string {
 			hostTracking = append(hostTracking, ref)
 		}
 	}
-	foreignBefore := foreign(repo, ents, ns)
+	// every other time the host has packed its refs meanwhile (git gc, git pack-refs): no ref of git-bug's is a loose file any more
+	if packed := crc32.ChecksumIEEE([]byte(fmt.Sprintf("%s %v %v %s %v", v.Via, v.Before.Lref, v.Before.Tref, kind, cli)))%2 == 0; packed {
+		if out, err := exec.Command("git", "-C", dir, "pack-refs", "--all", "--prune").CombinedOutput(); err != nil {
+			hx.Die("git pack-refs: %v %s", err, out)
+		}
+	}
+	foreignBefore := foreign(dir, repo, ents, ns)
 
+	// the refs as stock git lists them (this process's handle may remember packed refs another process has rewritten since)
+	gitRefs := func() map[string]bool {
+		out, err := exec.Command("git", "-C", dir, "for-each-ref", "--format=%(refname)").Output()
+		if err != nil {
+			hx.Die("git for-each-ref: %v", err)
+		}
+		set := map[string]bool{}
+		for _, l := range strings.Split(strings.TrimSpace(string(out)), "\n") {
+			set[l] = true
+		}
+		return set
+	}
 	project := func() State {
 		var s State
+		have := gitRefs()
 		for name, e := range ents {
-			if ok, _ := repo.RefExist(fmt.Sprintf("refs/%s/%s", ns, e.id)); ok {
+			if have[fmt.Sprintf("refs/%s/%s", ns, e.id)] {
 				s.Lref = append(s.Lref, name)
 			}
 			for _, m := range v.Remotes {
-				if ok, _ := repo.RefExist(fmt.Sprintf("refs/remotes/%s/%s/%s", m, ns, e.id)); ok {
+				if have[fmt.Sprintf("refs/remotes/%s/%s/%s", m, ns, e.id)] {
 					s.Tref = append(s.Tref, []string{m, name})
 				}
 			}
@@ -178,7 +202,7 @@ func one(v Vec, kind string, cli bool) string {
 			return fmt.Sprintf("%s: tracking refs %v, specification %v", when, s.Tref, v.After.Tref)
 		}
 		if v.Via != "wipe" {
-			if f := foreign(repo, ents, ns); f != foreignBefore {
+			if f := foreign(dir, repo, ents, ns); f != foreignBefore {
 				return fmt.Sprintf("%s: something outside the removed entity changed:\nbefore %s\nafter  %s", when, foreignBefore, f)
 			}
 		}
@@ -234,7 +258,7 @@ func one(v Vec, kind string, cli bool) string {
 		ic, err := c.Identities().Resolve(author.Id())
 		hx.Must(err)
 		hx.Must(c.SetUserIdentity(ic))
-		foreignBefore = foreign(repo, ents, ns)
+		foreignBefore = foreign(dir, repo, ents, ns)
 		if cli && kind == "bug" {
 			_ = c.Close()
 			// a unique prefix: one character more than what T shares with any other bug (its neighbour o1 shares two on purpose)
@@ -375,22 +399,25 @@ func one(v Vec, kind string, cli bool) string {
 		}
 		cmd := exec.Command(gitbug, "wipe")
 		cmd.Dir = dir
-		if out, err := cmd.CombinedOutput(); err != nil {
-			return fmt.Sprintf("git-bug wipe failed (git-bug configuration before: %v): %v: %s", v.Before.Conf, err, out)
+		wout, err := cmd.CombinedOutput()
+		if err != nil {
+			return fmt.Sprintf("git-bug wipe failed (git-bug configuration before: %v): %v: %s", v.Before.Conf, err, wout)
 		}
-		refs, _ := repo.ListRefs("refs/")
-		for _, r := range refs {
+		have := gitRefs()
+		for r := range have {
 			if strings.HasPrefix(r, "refs/bugs/") || strings.HasPrefix(r, "refs/identities/") ||
 				(strings.HasPrefix(r, "refs/remotes/") && (strings.Contains(r, "/bugs/") || strings.Contains(r, "/identities/"))) {
-				return "wipe left ref " + r
+				_, lerr := os.Stat(filepath.Join(dir, ".git", r))
+				pk, _ := os.ReadFile(filepath.Join(dir, ".git", "packed-refs"))
+				return fmt.Sprintf("wipe left ref %s (loose file: %v; packed-refs lists it: %v; wipe said: %s)", r, lerr == nil, strings.Contains(string(pk), r), strings.TrimSpace(string(wout)))
 			}
 		}
 		for _, ref := range hostTracking {
-			if ok, _ := repo.RefExist(ref); !ok {
+			if !have[ref] {
 				return "wipe removed the host project's remote-tracking branch " + ref
 			}
 		}
-		if ok, _ := repo.RefExist("refs/heads/unrelated"); !ok {
+		if !have["refs/heads/unrelated"] {
 			return "wipe removed an unrelated branch"
 		}
 		out, _ := exec.Command("git", "-C", dir, "config", "--local", "--list").CombinedOutput()
@@ -419,17 +446,20 @@ func one(v Vec, kind string, cli bool) string {
 // after a MergeAll without fetch the entities that were only remote-tracked exist locally; the removed one does not come back
 func mergedView(v Vec) []string { return v.After.Merged }
 
-func foreign(repo repository.ClockedRepo, ents map[string]*ent, ns string) string {
-	refs, _ := repo.ListRefs("refs/")
+func foreign(dir string, repo repository.ClockedRepo, ents map[string]*ent, ns string) string {
+	out, err := exec.Command("git", "-C", dir, "for-each-ref", "--format=%(refname)=%(objectname)").Output()
+	if err != nil {
+		hx.Die("git for-each-ref: %v", err)
+	}
+	refs := strings.Split(strings.TrimSpace(string(out)), "\n")
 	sort.Strings(refs)
 	var keep []string
 	t := ents["T"].id.String()
 	for _, r := range refs {
-		if strings.HasSuffix(r, "/"+t) {
+		if strings.HasSuffix(strings.SplitN(r, "=", 2)[0], "/"+t) {
 			continue
 		}
-		h, _ := repo.ResolveRef(r)
-		keep = append(keep, r+"="+string(h))
+		keep = append(keep, r)
 	}
 	cfg, _ := repo.LocalConfig().ReadAll("")
 	var ks []string
